@@ -1,7 +1,1015 @@
-//! C02 — not implemented yet.
-use vmon::report::Args;
+//! C02 — at most one writer wins each version slot; published manifests never change.
+//!
+//! E-CONC: 2–3 writers (+ optionally a reader) hold handles on the same read version and race for
+//! the same version slot under the gate scheduler (every storage call, every external-store call
+//! and every lock attempt parks until the seeded controller releases it), for each commit handler,
+//! with optional lost-reply / fail-before faults on the manifest-create call. The monitor is an
+//! offline checker over the *complete* store log (+ external-store log) and the client results.
+//! A stress leg without the gate hammers appends from 12 tasks on a multi-thread runtime on
+//! `memory://` (same log monitor) and on a local directory (client results + listing + sampled
+//! content hashes). `--selftest` runs `UnsafeCommitHandler` as a negative control.
 
-pub fn run(_args: &Args) -> i32 {
-    eprintln!("HARNESS-ERROR C02 not implemented");
-    2
+use arrow_array::RecordBatch;
+use lance::dataset::{InsertBuilder, WriteMode, WriteParams};
+use lance::Dataset;
+use lance_table::io::commit::{CommitHandler, RenameCommitHandler};
+use serde_json::json;
+use std::collections::{BTreeMap, BTreeSet};
+use std::sync::atomic::{AtomicU64, Ordering};
+use std::sync::{Arc, Mutex};
+use vmon::prng::{fnv, Rng};
+use vmon::report::{Args, Report};
+use vmon::store::{Event, Fault, FaultPlan, Kind, Sched, Strategy};
+use vmon::table::{ColTy, IdAlloc, TableSpec};
+
+use crate::common::*;
+
+const URI: &str = "memory://t";
+const BASE: &str = "t";
+
+#[derive(Debug, Clone, PartialEq)]
+pub struct Verdict {
+    pub sig: String,
+    pub what: String,
+}
+
+#[derive(Clone, Debug)]
+pub struct ClientResult {
+    pub actor: usize,
+    pub op: String,
+    /// Ok(version committed) or the error text
+    pub result: Result<u64, String>,
+}
+
+#[derive(Clone, Debug)]
+pub struct ReaderSample {
+    pub version: u64,
+    pub ids_digest: u64,
+    pub manifest_hash: Option<u64>,
+}
+
+fn is_create_kind(k: Kind) -> bool {
+    k.is_mutating() && k != Kind::Delete
+}
+
+/// The C02 monitor: a pure function of the logs and client results.
+/// `final_hashes`: content hash of each final manifest at quiescence (version -> hash).
+pub fn monitor(
+    handler: HandlerKind,
+    events: &[Event],
+    ext_events: &[ExtEvent],
+    clients: &[ClientResult],
+    final_hashes: &BTreeMap<u64, u64>,
+) -> (Vec<Verdict>, BTreeMap<&'static str, u64>) {
+    let mut out = vec![];
+    let mut stats: BTreeMap<&'static str, u64> = BTreeMap::new();
+    // 1. per final manifest path: applied mutations in log order
+    let mut per_slot: BTreeMap<u64, Vec<&Event>> = BTreeMap::new();
+    for e in events {
+        if !e.kind.is_mutating() || !e.applied {
+            continue;
+        }
+        // a rename/copy *from* a final manifest would also alter the slot
+        if e.to.is_some() {
+            if let Some(v) = final_manifest_version(BASE, &e.path) {
+                if matches!(e.kind, Kind::Rename | Kind::RenameIfNotExists) {
+                    out.push(Verdict {
+                        sig: "published-manifest-renamed-away".into(),
+                        what: format!("v{v}: {}", e.brief()),
+                    });
+                }
+            }
+        }
+        if let Some(v) = final_manifest_version(BASE, e.dest()) {
+            per_slot.entry(v).or_default().push(e);
+        }
+    }
+    for (v, evs) in &per_slot {
+        *stats.entry("slots_with_applied_create").or_insert(0) += 1;
+        let first = evs[0];
+        if !is_create_kind(first.kind) {
+            continue; // a delete of something created before the log started
+        }
+        let h0 = first.hash;
+        for e in &evs[1..] {
+            if e.kind == Kind::Delete {
+                out.push(Verdict {
+                    sig: "published-manifest-deleted".into(),
+                    what: format!("v{v}: {} after {}", e.brief(), first.brief()),
+                });
+                continue;
+            }
+            let same = e.hash.is_some() && e.hash == h0;
+            if handler == HandlerKind::External && same {
+                // finalisation is a plain copy of the staging object that won the external slot;
+                // two finalisers may both copy it. Identical bytes: indistinguishable for readers.
+                *stats.entry("idempotent_recopies_same_content").or_insert(0) += 1;
+                continue;
+            }
+            out.push(Verdict {
+                sig: if same {
+                    "second-applied-write-of-a-published-manifest-same-content".into()
+                } else {
+                    "published-manifest-overwritten-with-different-content".into()
+                },
+                what: format!(
+                    "v{v}: first {} (hash {:?}), later {} (hash {:?})",
+                    first.brief(),
+                    h0,
+                    e.brief(),
+                    e.hash
+                ),
+            });
+        }
+        if let (Some(h), Some(fh)) = (h0, final_hashes.get(v)) {
+            if h != *fh {
+                out.push(Verdict {
+                    sig: "manifest-content-differs-at-quiescence".into(),
+                    what: format!("v{v}: hash at publication {h:016x}, at quiescence {fh:016x}"),
+                });
+            }
+        }
+    }
+    // 2. external store: the object that won the slot is the content of the final manifest
+    if handler == HandlerKind::External {
+        let mut winners: BTreeMap<u64, Vec<&ExtEvent>> = BTreeMap::new();
+        for x in ext_events {
+            if x.op == ExtOp::PutIfNotExists && x.applied && x.base == BASE {
+                winners.entry(x.version).or_default().push(x);
+            }
+            if x.op == ExtOp::PutIfExists && x.applied && x.base == BASE {
+                if final_manifest_version(BASE, &x.path) != Some(x.version) {
+                    out.push(Verdict {
+                        sig: "external-entry-flipped-to-a-non-final-path".into(),
+                        what: x.brief(),
+                    });
+                }
+            }
+        }
+        for (v, ws) in &winners {
+            if ws.len() > 1 {
+                out.push(Verdict {
+                    sig: "harness-mock-external-store-not-atomic".into(),
+                    what: format!("v{v}: {} applied put_if_not_exists", ws.len()),
+                });
+            }
+            let staging = &ws[0].path;
+            let staged_hash = events
+                .iter()
+                .filter(|e| e.applied && is_create_kind(e.kind) && e.dest() == staging)
+                .filter_map(|e| e.hash)
+                .next_back();
+            if let (Some(sh), Some(evs)) = (staged_hash, per_slot.get(v)) {
+                if let Some(h) = evs[0].hash {
+                    if h != sh {
+                        out.push(Verdict {
+                            sig: "final-manifest-is-not-the-object-that-won-the-external-slot".into(),
+                            what: format!("v{v}: staged winner {sh:016x}, final manifest {h:016x}"),
+                        });
+                    }
+                }
+            }
+        }
+    }
+    // 3. client results
+    let mut ok_by_version: BTreeMap<u64, Vec<usize>> = BTreeMap::new();
+    for c in clients {
+        if let Ok(v) = &c.result {
+            ok_by_version.entry(*v).or_default().push(c.actor);
+        }
+    }
+    for (v, actors) in &ok_by_version {
+        if actors.len() > 1 {
+            out.push(Verdict {
+                sig: "two-writers-returned-ok-for-the-same-version".into(),
+                what: format!("v{v}: actors {actors:?}"),
+            });
+        }
+        // the Ok writer must be the one whose create was applied
+        let winner: Option<usize> = if handler == HandlerKind::External {
+            ext_events
+                .iter()
+                .find(|x| x.op == ExtOp::PutIfNotExists && x.applied && x.version == *v && x.base == BASE)
+                .map(|x| x.actor)
+        } else {
+            per_slot.get(v).map(|e| e[0].actor)
+        };
+        match winner {
+            Some(w) if actors.contains(&w) => {}
+            Some(w) => out.push(Verdict {
+                sig: "writer-returned-ok-for-a-slot-another-writer-won".into(),
+                what: format!("v{v}: Ok returned to {actors:?}, slot created by a{w}"),
+            }),
+            None => out.push(Verdict {
+                sig: "writer-returned-ok-without-applied-create".into(),
+                what: format!("v{v}: Ok returned to {actors:?}, no applied create in the log"),
+            }),
+        }
+    }
+    (out, stats)
+}
+
+/// version slots for which >= 2 distinct writers issued their manifest create
+fn contended_slots(handler: HandlerKind, events: &[Event], ext: &[ExtEvent], lock: &[LockEvent]) -> BTreeSet<u64> {
+    let mut by: BTreeMap<u64, BTreeSet<usize>> = BTreeMap::new();
+    match handler {
+        HandlerKind::External => {
+            for x in ext {
+                if x.op == ExtOp::PutIfNotExists && x.base == BASE {
+                    by.entry(x.version).or_default().insert(x.actor);
+                }
+            }
+        }
+        HandlerKind::Lock => {
+            for l in lock {
+                if l.what == "acquired" || l.what == "busy" {
+                    by.entry(l.version).or_default().insert(l.actor);
+                }
+            }
+        }
+        _ => {
+            for e in events {
+                if is_create_kind(e.kind) {
+                    if let Some(v) = final_manifest_version(BASE, e.dest()) {
+                        by.entry(v).or_default().insert(e.actor);
+                    }
+                }
+            }
+        }
+    }
+    by.into_iter().filter(|(_, a)| a.len() >= 2).map(|(v, _)| v).collect()
+}
+
+#[derive(Clone, Debug)]
+enum WOp {
+    Append(RecordBatch),
+    Delete(String),
+    Config(String, String),
+}
+
+impl WOp {
+    fn describe(&self) -> String {
+        match self {
+            WOp::Append(b) => format!("append({} rows)", b.num_rows()),
+            WOp::Delete(p) => format!("delete({p})"),
+            WOp::Config(k, v) => format!("update_config({k}={v})"),
+        }
+    }
+}
+
+async fn run_wop(op: WOp, mut ds: Dataset, params: WriteParams) -> Result<u64, String> {
+    match op {
+        WOp::Append(b) => {
+            let d = InsertBuilder::new(Arc::new(ds))
+                .with_params(&params)
+                .execute(vec![b])
+                .await
+                .map_err(|e| e.to_string())?;
+            Ok(d.manifest().version)
+        }
+        WOp::Delete(p) => {
+            ds.delete(&p).await.map_err(|e| e.to_string())?;
+            Ok(ds.manifest().version)
+        }
+        WOp::Config(k, v) => {
+            ds.update_config([(k, Some(v))]).await.map_err(|e| e.to_string())?;
+            Ok(ds.manifest().version)
+        }
+    }
+}
+
+fn create_fault_plan(handler: HandlerKind, fault: Fault) -> FaultPlan {
+    let m = match handler {
+        HandlerKind::CondPut => (Kind::PutCreate, "_versions/".to_string(), fault),
+        HandlerKind::Rename => (Kind::RenameIfNotExists, "_versions/".to_string(), fault),
+        HandlerKind::Lock | HandlerKind::Unsafe => (Kind::Put, "_versions/".to_string(), fault),
+        HandlerKind::External => (Kind::Copy, "_versions/".to_string(), fault),
+    };
+    FaultPlan {
+        on_match: vec![m],
+        ..Default::default()
+    }
+}
+
+struct CaseOut {
+    verdicts: Vec<Verdict>,
+    witness: serde_json::Value,
+    contended: usize,
+    ihash: u64,
+    events: usize,
+    released: usize,
+    nondet: u64,
+    watchdog: bool,
+    stats: BTreeMap<&'static str, u64>,
+    sample: serde_json::Value,
+}
+
+/// One gated race.
+async fn race(seed: u64, idx: u64, handler: HandlerKind) -> Result<CaseOut, String> {
+    let mut rng = Rng::for_case(seed, idx);
+    let mut env = Env::new(handler);
+    env.lock_spins = rng.below(3) as u32;
+    let spec = TableSpec::simple(&[("v", ColTy::I32, true)]);
+    let mut ids = IdAlloc::new(0);
+    let p0 = env.proc(0);
+    let mut params = p0.actor.write_params(WriteMode::Create);
+    params.enable_v2_manifest_paths = rng.chance(1, 3);
+    let b = spec.batch(&mut rng, &ids.take(24));
+    p0.actor.write(URI, vec![b], params).await.map_err(|e| format!("setup create: {e}"))?;
+    for _ in 0..rng.below(3) {
+        let b = spec.batch(&mut rng, &ids.take(4));
+        p0.actor
+            .write(URI, vec![b], p0.actor.write_params(WriteMode::Append))
+            .await
+            .map_err(|e| format!("setup append: {e}"))?;
+    }
+    let n_writers = rng.urange(2, 3);
+    let with_reader = rng.chance(2, 3);
+    let strat_kind = idx % 4;
+    let mut procs = vec![];
+    let mut wops = vec![];
+    let mut fault_desc = vec![];
+    for w in 1..=n_writers {
+        let p = env.proc(w);
+        let ds = p.actor.open(URI).await.map_err(|e| format!("setup open: {e}"))?;
+        let op = match rng.below(3) {
+            0 => WOp::Append(spec.batch(&mut rng, &ids.take(3))),
+            1 => WOp::Delete(format!("id >= {} AND id < {}", (w - 1) * 6, w * 6)),
+            _ => WOp::Config(format!("w{w}"), format!("{}", rng.below(100))),
+        };
+        // faults on the create call of this writer
+        if rng.chance(2, 5) {
+            let fault = if rng.bool() { Fault::LostReply } else { Fault::FailBefore };
+            if handler == HandlerKind::External && rng.bool() {
+                let op = if rng.bool() { ExtOp::PutIfNotExists } else { ExtOp::PutIfExists };
+                p.ext.as_ref().unwrap().set_faults(vec![ExtFault {
+                    op,
+                    nth: 1,
+                    fault,
+                    crash: false,
+                }]);
+                fault_desc.push(format!("a{w}: ext.{} #{} {:?}", op.name(), 1, fault));
+            } else {
+                p.actor.store.set_plan(create_fault_plan(handler, fault));
+                fault_desc.push(format!("a{w}: manifest create call {:?}", fault));
+            }
+        }
+        procs.push((p, ds));
+        wops.push(op);
+    }
+    let reader = if with_reader { Some(env.proc(n_writers + 1)) } else { None };
+
+    let sched = Sched::new();
+    env.world.set_sched(Some(sched.clone()));
+    let log_from = env.world.log_len();
+    let mut handles = vec![];
+    for (i, (p, ds)) in procs.into_iter().enumerate() {
+        let id = i + 1;
+        let op = wops[i].clone();
+        let s = sched.clone();
+        s.begin(id);
+        let params = p.actor.write_params(WriteMode::Append);
+        handles.push(tokio::spawn(async move {
+            let desc = op.describe();
+            let r = guarded(run_wop(op, ds, params), 50).await;
+            s.end(id);
+            ClientResult {
+                actor: id,
+                op: desc,
+                result: match r {
+                    Ok(r) => r,
+                    Err(GuardFail::Timeout) => Err("TIMEOUT".into()),
+                    Err(GuardFail::Panic(m)) => Err(format!("PANIC {m}")),
+                },
+            }
+        }));
+    }
+    let samples: Arc<Mutex<Vec<ReaderSample>>> = Arc::new(Mutex::new(vec![]));
+    let reader_handle = reader.map(|r| {
+        let id = n_writers + 1;
+        let s = sched.clone();
+        s.begin(id);
+        let samples = samples.clone();
+        let world = env.world.clone();
+        tokio::spawn(async move {
+            let fut = async {
+                for _ in 0..3 {
+                    if let Ok(ds) = r.actor.open(URI).await {
+                        let v = ds.manifest().version;
+                        let mh = world.hash_of(ds.manifest_location().path.as_ref()).await;
+                        if let Ok(o) = version_obs(&ds).await {
+                            samples.lock().unwrap().push(ReaderSample {
+                                version: v,
+                                ids_digest: o.digest(),
+                                manifest_hash: mh,
+                            });
+                        }
+                    }
+                }
+            };
+            let _ = guarded(fut, 50).await;
+            s.end(id);
+        })
+    });
+    let strategy = match strat_kind {
+        0 => Strategy::Uniform(Rng::new(seed ^ idx.wrapping_mul(77))),
+        1 => Strategy::pct(Rng::new(seed ^ idx.wrapping_mul(131)), n_writers + 2, 2, 40),
+        2 => {
+            let mut order: Vec<usize> = (1..=n_writers + 1).collect();
+            rng.shuffle(&mut order);
+            Strategy::ActorOrder(order)
+        }
+        _ => Strategy::RoundRobin(0),
+    };
+    let strat_name = ["uniform", "pct", "actor_order", "round_robin"][strat_kind as usize];
+    let outcome = sched.run(strategy, std::time::Duration::from_secs(60)).await;
+    let mut clients = vec![];
+    for h in handles {
+        match h.await {
+            Ok(c) => clients.push(c),
+            Err(e) => return Err(format!("writer task join error: {e}")),
+        }
+    }
+    if let Some(h) = reader_handle {
+        let _ = h.await;
+    }
+    env.world.set_sched(None);
+
+    let events = env.world.events_since(log_from);
+    let ext = env.ext.events();
+    let lock = env.lock.log.lock().unwrap().clone();
+    // quiescence: final hashes of all final manifests
+    let mut final_hashes = BTreeMap::new();
+    for p in env.world.list_paths().await {
+        if let Some(v) = final_manifest_version(BASE, &p) {
+            if let Some(h) = env.world.hash_of(&p).await {
+                final_hashes.insert(v, h);
+            }
+        }
+    }
+    let (mut verdicts, stats) = monitor(handler, &events, &ext, &clients, &final_hashes);
+    // reader samples vs quiescent content of the same version
+    let samples = samples.lock().unwrap().clone();
+    if !samples.is_empty() {
+        let obs = env.proc(90);
+        for s in &samples {
+            if let (Some(mh), Some(fh)) = (s.manifest_hash, final_hashes.get(&s.version)) {
+                if mh != *fh {
+                    verdicts.push(Verdict {
+                        sig: "manifest-content-changed-between-observations".into(),
+                        what: format!("v{}: reader saw manifest hash {mh:016x}, at quiescence {fh:016x}", s.version),
+                    });
+                }
+            }
+            match guarded(obs.actor.open_version(URI, s.version), 30).await {
+                Ok(Ok(ds)) => {
+                    if let Ok(o) = version_obs(&ds).await {
+                        if o.digest() != s.ids_digest {
+                            verdicts.push(Verdict {
+                                sig: "version-content-changed-between-observations".into(),
+                                what: format!("v{}: content digest seen during the race differs from quiescence", s.version),
+                            });
+                        }
+                    }
+                }
+                _ => {}
+            }
+        }
+    }
+    let contended = contended_slots(handler, &events, &ext, &lock);
+    let writer_log: Vec<String> = events
+        .iter()
+        .filter(|e| e.kind.is_mutating() || e.path.starts_with("__"))
+        .map(|e| e.brief())
+        .collect();
+    let witness = json!({
+        "seed": seed, "case": idx, "handler": handler.name(), "strategy": strat_name,
+        "writers": clients.iter().map(|c| json!({"actor": c.actor, "op": c.op, "result": format!("{:?}", c.result)})).collect::<Vec<_>>(),
+        "faults": fault_desc, "reader": with_reader, "lock_spins": env.lock_spins,
+        "released": outcome.brief(400), "mutations_and_markers": writer_log,
+        "ext_log": ext.iter().map(|e| e.brief()).collect::<Vec<_>>(),
+        "replay": format!("e_crash C02 --seed {seed} --case {idx}"),
+    });
+    let sample = json!({
+        "case": idx, "handler": handler.name(), "strategy": strat_name, "faults": fault_desc,
+        "writers": clients.iter().map(|c| format!("a{} {} -> {:?}", c.actor, c.op, c.result.as_ref().map_err(|e| e.chars().take(60).collect::<String>()))).collect::<Vec<_>>(),
+        "contended_slots": contended.iter().collect::<Vec<_>>(),
+        "released_calls": outcome.released.len(),
+        "creates": events.iter().filter(|e| is_create_kind(e.kind) && final_manifest_version(BASE, e.dest()).is_some()).map(|e| e.brief()).collect::<Vec<_>>(),
+    });
+    Ok(CaseOut {
+        verdicts,
+        witness,
+        contended: contended.len(),
+        ihash: outcome.interleaving_hash() ^ fnv(format!("{}{:?}", handler.name(), fault_desc).as_bytes()),
+        events: events.len(),
+        released: outcome.released.len(),
+        nondet: outcome.nondeterministic_steps,
+        watchdog: outcome.watchdog_fired,
+        stats,
+        sample,
+    })
+}
+
+// -------------------------------------------------------------------------------------------
+// stress leg (no gate)
+// -------------------------------------------------------------------------------------------
+
+fn small_batch(lo: i64, n: i64) -> RecordBatch {
+    use arrow_array::Int64Array;
+    use arrow_schema::{DataType, Field, Schema};
+    let schema = Arc::new(Schema::new(vec![Field::new("id", DataType::Int64, false)]));
+    RecordBatch::try_new(schema, vec![Arc::new(Int64Array::from((lo..lo + n).collect::<Vec<_>>()))]).unwrap()
+}
+
+/// memory:// through a World (complete log, same monitor), `tasks` writers x `rounds` appends.
+async fn stress_memory(report: &Report, handler: HandlerKind, tasks: usize, rounds: usize, tag: u64) {
+    let env = Arc::new(Env::new(handler));
+    let p0 = env.proc(0);
+    if let Err(e) = p0
+        .actor
+        .write(URI, vec![small_batch(0, 4)], {
+            let mut p = p0.actor.write_params(WriteMode::Create);
+            p.auto_cleanup = None;
+            p
+        })
+        .await
+    {
+        report.harness_error(&format!("stress setup: {e}"));
+        return;
+    }
+    let mut hs = vec![];
+    for t in 1..=tasks {
+        let env = env.clone();
+        hs.push(tokio::spawn(async move {
+            let p = env.proc(t);
+            let mut out = vec![];
+            for r in 0..rounds {
+                let mut params = p.actor.write_params(WriteMode::Append);
+                params.auto_cleanup = None;
+                let res = guarded(
+                    p.actor.write(URI, vec![small_batch((t * 1_000_000 + r * 10) as i64, 2)], params),
+                    60,
+                )
+                .await;
+                out.push(ClientResult {
+                    actor: t,
+                    op: "append".into(),
+                    result: match res {
+                        Ok(Ok(d)) => Ok(d.manifest().version),
+                        Ok(Err(e)) => Err(e.to_string()),
+                        Err(g) => Err(format!("{g:?}")),
+                    },
+                });
+            }
+            out
+        }));
+    }
+    let mut clients = vec![];
+    for h in hs {
+        match h.await {
+            Ok(v) => clients.extend(v),
+            Err(e) => report.harness_error(&format!("stress join: {e}")),
+        }
+    }
+    let events = env.world.events();
+    let ext = env.ext.events();
+    let lock = env.lock.log.lock().unwrap().clone();
+    let mut final_hashes = BTreeMap::new();
+    for p in env.world.list_paths().await {
+        if let Some(v) = final_manifest_version(BASE, &p) {
+            if let Some(h) = env.world.hash_of(&p).await {
+                final_hashes.insert(v, h);
+            }
+        }
+    }
+    let (verdicts, _) = monitor(handler, &events, &ext, &clients, &final_hashes);
+    let oks = clients.iter().filter(|c| c.result.is_ok()).count();
+    let contended = contended_slots(handler, &events, &ext, &lock);
+    report.count("stress_memory_commits_ok", oks as u64);
+    report.count("stress_memory_commit_errors", (clients.len() - oks) as u64);
+    report.count("stress_memory_contended_slots", contended.len() as u64);
+    report.count("events", events.len() as u64);
+    // listing: exactly 1 + oks final manifests, dense
+    let listed: Vec<u64> = final_hashes.keys().copied().collect();
+    let expect_min = 1 + oks as u64;
+    let dense = listed.iter().enumerate().all(|(i, v)| *v == i as u64 + 1);
+    let mut verdicts = verdicts;
+    if !dense || (listed.len() as u64) < expect_min {
+        verdicts.push(Verdict {
+            sig: "stress-listing-inconsistent-with-client-results".into(),
+            what: format!("{} Ok commits but manifests listed: {}..{} (n={})", oks, listed.first().unwrap_or(&0), listed.last().unwrap_or(&0), listed.len()),
+        });
+    }
+    for v in verdicts {
+        report.violation(
+            &format!("{}:{}:stress", v.sig, handler.name()),
+            &v.what,
+            json!({"leg": "stress_memory", "handler": handler.name(), "tasks": tasks, "rounds": rounds,
+                   "results": clients.iter().map(|c| format!("a{} {:?}", c.actor, c.result.as_ref().map_err(|e| e.chars().take(80).collect::<String>()))).collect::<Vec<_>>()}),
+        );
+    }
+    report.case(if contended.is_empty() {
+        None
+    } else {
+        Some(fnv(format!("stress-mem-{}-{tag}-{}", handler.name(), contended.len()).as_bytes()))
+    });
+}
+
+/// Local directory, plain Lance (real O_EXCL / hard-link paths). Checked from client results, the
+/// final listing and content hashes sampled by a concurrent observer.
+async fn stress_local(report: &Report, rename: bool, tasks: usize, rounds: usize, tag: u64) {
+    let dir = match tempfile::Builder::new().prefix("e_crash-c02-").tempdir_in("/tmp") {
+        Ok(d) => d,
+        Err(e) => {
+            report.harness_error(&format!("tempdir: {e}"));
+            return;
+        }
+    };
+    let uri = format!("{}/t", dir.path().display());
+    let handler: Option<Arc<dyn CommitHandler>> = if rename { Some(Arc::new(RenameCommitHandler)) } else { None };
+    let mk_params = |mode: WriteMode| WriteParams {
+        mode,
+        commit_handler: handler.clone(),
+        auto_cleanup: None,
+        ..Default::default()
+    };
+    let b = small_batch(0, 4);
+    let reader = arrow_array::RecordBatchIterator::new(vec![Ok(b.clone())], b.schema());
+    if let Err(e) = Dataset::write(reader, &uri, Some(mk_params(WriteMode::Create))).await {
+        report.harness_error(&format!("stress local setup: {e}"));
+        return;
+    }
+    let stop = Arc::new(std::sync::atomic::AtomicBool::new(false));
+    let vdir = format!("{uri}/_versions");
+    // sampler: content hash of every final manifest, repeatedly
+    let seen: Arc<Mutex<BTreeMap<String, BTreeSet<u64>>>> = Arc::new(Mutex::new(BTreeMap::new()));
+    let sampler = {
+        let stop = stop.clone();
+        let seen = seen.clone();
+        let vdir = vdir.clone();
+        std::thread::spawn(move || {
+            let mut passes = 0u64;
+            while !stop.load(Ordering::SeqCst) {
+                if let Ok(rd) = std::fs::read_dir(&vdir) {
+                    for e in rd.flatten() {
+                        let name = e.file_name().to_string_lossy().to_string();
+                        if name.ends_with(".manifest") {
+                            if let Ok(bytes) = std::fs::read(e.path()) {
+                                seen.lock().unwrap().entry(name).or_default().insert(fnv(&bytes));
+                            }
+                        }
+                    }
+                }
+                passes += 1;
+                std::thread::sleep(std::time::Duration::from_millis(2));
+            }
+            passes
+        })
+    };
+    let mut hs = vec![];
+    for t in 1..=tasks {
+        let uri = uri.clone();
+        let handler = handler.clone();
+        hs.push(tokio::spawn(async move {
+            let mut out = vec![];
+            for r in 0..rounds {
+                let b = small_batch((t * 1_000_000 + r * 10) as i64, 2);
+                let reader = arrow_array::RecordBatchIterator::new(vec![Ok(b.clone())], b.schema());
+                let params = WriteParams {
+                    mode: WriteMode::Append,
+                    commit_handler: handler.clone(),
+                    auto_cleanup: None,
+                    ..Default::default()
+                };
+                let res = guarded(Dataset::write(reader, &uri, Some(params)), 60).await;
+                out.push(ClientResult {
+                    actor: t,
+                    op: "append".into(),
+                    result: match res {
+                        Ok(Ok(d)) => Ok(d.manifest().version),
+                        Ok(Err(e)) => Err(e.to_string()),
+                        Err(g) => Err(format!("{g:?}")),
+                    },
+                });
+            }
+            out
+        }));
+    }
+    let mut clients = vec![];
+    for h in hs {
+        match h.await {
+            Ok(v) => clients.extend(v),
+            Err(e) => report.harness_error(&format!("stress join: {e}")),
+        }
+    }
+    stop.store(true, Ordering::SeqCst);
+    let passes = sampler.join().unwrap_or(0);
+    let mut verdicts = vec![];
+    let mut ok_versions: BTreeMap<u64, Vec<usize>> = BTreeMap::new();
+    for c in &clients {
+        if let Ok(v) = &c.result {
+            ok_versions.entry(*v).or_default().push(c.actor);
+        }
+    }
+    for (v, a) in &ok_versions {
+        if a.len() > 1 {
+            verdicts.push(Verdict {
+                sig: "two-writers-returned-ok-for-the-same-version".into(),
+                what: format!("v{v}: tasks {a:?}"),
+            });
+        }
+    }
+    // final pass of hashes + listing
+    let mut listed = vec![];
+    if let Ok(rd) = std::fs::read_dir(&vdir) {
+        for e in rd.flatten() {
+            let name = e.file_name().to_string_lossy().to_string();
+            if let Some(stem) = name.strip_suffix(".manifest") {
+                if let Ok(v) = stem.parse::<u64>() {
+                    listed.push(v);
+                    if let Ok(bytes) = std::fs::read(e.path()) {
+                        seen.lock().unwrap().entry(name).or_default().insert(fnv(&bytes));
+                    }
+                }
+            }
+        }
+    }
+    listed.sort();
+    let oks = ok_versions.len();
+    let dense = listed.iter().enumerate().all(|(i, v)| *v == i as u64 + 1);
+    if !dense || listed.len() < 1 + oks {
+        verdicts.push(Verdict {
+            sig: "stress-listing-inconsistent-with-client-results".into(),
+            what: format!("{oks} Ok commits, listed manifests n={} dense={dense}", listed.len()),
+        });
+    }
+    for (v, _) in &ok_versions {
+        if !listed.contains(v) {
+            verdicts.push(Verdict {
+                sig: "ok-version-missing-from-listing".into(),
+                what: format!("v{v} returned Ok but {v}.manifest is not listed"),
+            });
+        }
+    }
+    let seen = seen.lock().unwrap().clone();
+    for (name, hs) in &seen {
+        if hs.len() > 1 {
+            verdicts.push(Verdict {
+                sig: "manifest-content-changed-between-observations".into(),
+                what: format!("{name}: {} different content hashes sampled", hs.len()),
+            });
+        }
+    }
+    // contention evidence: a writer whose commit landed more than one above the version it read
+    // cannot be observed without the log; use the number of writers that were active: slots with
+    // concurrent attempts are inferred from results (every round all tasks race)
+    report.count("stress_local_commits_ok", oks as u64);
+    report.count("stress_local_commit_errors", (clients.len() - clients.iter().filter(|c| c.result.is_ok()).count()) as u64);
+    report.count("stress_local_hash_samples", seen.values().map(|h| h.len() as u64).sum());
+    report.count("stress_local_sampler_passes", passes);
+    for v in verdicts {
+        report.violation(
+            &format!("{}:{}:stress-local", v.sig, if rename { "rename" } else { "conditional_put" }),
+            &v.what,
+            json!({"leg": "stress_local", "rename_handler": rename, "tasks": tasks, "rounds": rounds,
+                   "results": clients.iter().map(|c| format!("t{} {:?}", c.actor, c.result.as_ref().map_err(|e| e.chars().take(80).collect::<String>()))).collect::<Vec<_>>()}),
+        );
+    }
+    report.case(if oks >= 2 {
+        Some(fnv(format!("stress-local-{rename}-{tag}-{oks}").as_bytes()))
+    } else {
+        None
+    });
+}
+
+fn stress_leg(report: &Report, args: &Args) {
+    let rt = tokio::runtime::Builder::new_multi_thread()
+        .worker_threads(worker_threads().min(12).max(2))
+        .enable_all()
+        .build()
+        .expect("runtime");
+    let rounds = args.tier.pick(6, 40);
+    let reps = args.tier.pick(1, 6);
+    rt.block_on(async {
+        for rep in 0..reps {
+            for h in [HandlerKind::CondPut, HandlerKind::Rename, HandlerKind::Lock, HandlerKind::External] {
+                stress_memory(report, h, 12, rounds, rep).await;
+            }
+            stress_local(report, false, 12, rounds, rep).await;
+            stress_local(report, true, 12, rounds, rep).await;
+        }
+    });
+}
+
+// -------------------------------------------------------------------------------------------
+// selftest: negative control + corrupted logs
+// -------------------------------------------------------------------------------------------
+
+fn selftest(args: &Args) -> i32 {
+    let rt = tokio::runtime::Builder::new_current_thread().enable_all().build().unwrap();
+    let ok = rt.block_on(async {
+        let mut fails: Vec<String> = vec![];
+        // 1. negative control: UnsafeCommitHandler must trip the monitor in some schedules
+        let mut flagged = 0;
+        let mut runs = 0;
+        let mut sigs = BTreeSet::new();
+        for i in 0..60u64 {
+            match race(args.seed, i, HandlerKind::Unsafe).await {
+                Ok(o) => {
+                    runs += 1;
+                    if !o.verdicts.is_empty() {
+                        flagged += 1;
+                        for v in &o.verdicts {
+                            sigs.insert(v.sig.clone());
+                        }
+                    }
+                }
+                Err(e) => fails.push(format!("unsafe race error {e}")),
+            }
+        }
+        println!("SELFTEST C02 negative control: UnsafeCommitHandler flagged in {flagged}/{runs} schedules; classes {sigs:?}");
+        if flagged == 0 {
+            fails.push("UnsafeCommitHandler never flagged".into());
+        }
+        // 2. corrupted logs of a clean race
+        let mut clean = None;
+        for i in 0..40u64 {
+            if let Ok(o) = race(args.seed, 1000 + i, HandlerKind::CondPut).await {
+                if o.verdicts.is_empty() && o.contended > 0 {
+                    clean = Some(i);
+                    break;
+                }
+            }
+        }
+        if clean.is_none() {
+            fails.push("no clean contended race found".into());
+        }
+        // synthetic: two applied creates, hash change, double Ok
+        let mk = |t: u64, actor: usize, kind: Kind, hash: u64, applied: bool| Event {
+            t,
+            actor,
+            kind,
+            path: "t/_versions/2.manifest".into(),
+            to: None,
+            result: if applied { Ok(()) } else { Err("AlreadyExists".into()) },
+            applied,
+            hash: if applied { Some(hash) } else { None },
+            mut_index: Some(1),
+        };
+        let fh: BTreeMap<u64, u64> = [(2u64, 7u64)].into_iter().collect();
+        let ok1 = vec![ClientResult { actor: 1, op: "x".into(), result: Ok(2) }];
+        let (v, _) = monitor(HandlerKind::CondPut, &[mk(0, 1, Kind::PutCreate, 7, true), mk(1, 2, Kind::PutCreate, 0, false)], &[], &ok1, &fh);
+        if !v.is_empty() {
+            fails.push(format!("clean synthetic log flagged: {v:?}"));
+        }
+        let (v, _) = monitor(HandlerKind::CondPut, &[mk(0, 1, Kind::PutCreate, 7, true), mk(1, 2, Kind::PutCreate, 7, true)], &[], &ok1, &fh);
+        if v.is_empty() {
+            fails.push("two applied creates (same content) not flagged".into());
+        }
+        let (v, _) = monitor(HandlerKind::External, &[mk(0, 1, Kind::Copy, 7, true), mk(1, 2, Kind::Copy, 8, true)], &[], &[], &fh);
+        if v.is_empty() {
+            fails.push("recopy with different content not flagged".into());
+        }
+        let (v, _) = monitor(HandlerKind::CondPut, &[mk(0, 1, Kind::PutCreate, 7, true)], &[], &ok1, &[(2u64, 9u64)].into_iter().collect());
+        if v.is_empty() {
+            fails.push("changed content at quiescence not flagged".into());
+        }
+        let two_ok = vec![
+            ClientResult { actor: 1, op: "x".into(), result: Ok(2) },
+            ClientResult { actor: 2, op: "x".into(), result: Ok(2) },
+        ];
+        let (v, _) = monitor(HandlerKind::CondPut, &[mk(0, 1, Kind::PutCreate, 7, true)], &[], &two_ok, &fh);
+        if v.is_empty() {
+            fails.push("two Ok for one version not flagged".into());
+        }
+        let (v, _) = monitor(HandlerKind::CondPut, &[mk(0, 1, Kind::PutCreate, 7, true), mk(1, 1, Kind::Delete, 0, true)], &[], &ok1, &fh);
+        if v.is_empty() {
+            fails.push("delete of a published manifest not flagged".into());
+        }
+        if fails.is_empty() {
+            println!("SELFTEST C02 ok: negative control flagged, 5/5 corrupted logs flagged, clean log accepted");
+            true
+        } else {
+            println!("SELFTEST C02 FAILED: {fails:?}");
+            false
+        }
+    });
+    if ok {
+        0
+    } else {
+        2
+    }
+}
+
+pub fn run(args: &Args) -> i32 {
+    if args.extra.contains_key("selftest") {
+        return selftest(args);
+    }
+    let report = Report::new(
+        args,
+        "exploration",
+        "Case = one gated race: 2-3 writers holding handles on the same read version (+ a reader in 2/3 of the cases) \
+         each do one write (append / delete / update_config); every storage call, external-store call and lock attempt \
+         is released one at a time by a seeded strategy (uniform, PCT, actor order, round robin); 40% of the writers get \
+         a lost-reply / fail-before fault on their manifest-create call (or on an external-store write). Handlers: \
+         conditional put, rename, lock, external store. Non-trivial iff >= 2 writers issued their manifest create \
+         (external: put_if_not_exists; lock: lock attempt) for the same version number; distinct = hash of the \
+         normalised released call sequence + handler + fault plan. Plus an un-gated stress leg (12 tasks).",
+        (62, 900),
+    )
+    .with_min_nontrivial(50);
+    report.assume("object_store InMemory / LocalFileSystem implement create-if-absent, rename-if-absent and copy atomically");
+    report.assume("the lock and the external manifest store are linearizable harness mocks; a busy lock is reported as a commit conflict after 0-2 gated retries");
+    report.assume("for the external-store handler a second copy of the *same* bytes onto an already finalised manifest path (two racing finalisers) is counted, not flagged: no reader can distinguish it");
+    let single: Option<u64> = args.extra.get("case").and_then(|s| s.parse().ok());
+    let only_handler = args.extra.get("handler").cloned();
+    if single.is_none() && !args.extra.contains_key("nostress") {
+        stress_leg(&report, args);
+        report.set("stress_leg_wall_s", json!(report.elapsed_s()));
+    }
+    let max_cases: u64 = args.tier.pick(30_000, 2_000_000);
+    let next = AtomicU64::new(0);
+    let per_handler: Mutex<BTreeMap<String, (u64, u64)>> = Mutex::new(BTreeMap::new());
+    let per_strategy: Mutex<BTreeMap<String, u64>> = Mutex::new(BTreeMap::new());
+    let threads = if single.is_some() { 1 } else { worker_threads() };
+    run_threads(threads, |_| {
+        let report = &report;
+        let next = &next;
+        let per_handler = &per_handler;
+        let per_strategy = &per_strategy;
+        let only_handler = only_handler.clone();
+        let seed = args.seed;
+        Box::pin(async move {
+            loop {
+                let idx = match single {
+                    Some(c) => c,
+                    None => next.fetch_add(1, Ordering::SeqCst),
+                };
+                if single.is_none() && (idx >= max_cases || !report.time_left()) {
+                    break;
+                }
+                let mut handler = HandlerKind::SAFE[((idx / 4 + seed) % 4) as usize];
+                if let Some(h) = &only_handler {
+                    if let Some(k) = HandlerKind::SAFE.iter().find(|k| k.name() == h) {
+                        handler = *k;
+                    }
+                }
+                match race(seed, idx, handler).await {
+                    Err(e) => report.harness_error(&format!("case {idx}: {e}")),
+                    Ok(o) => {
+                        if o.watchdog {
+                            report.inconclusive(&format!("case {idx}: scheduler watchdog fired"));
+                            report.count("watchdog_fired", 1);
+                        }
+                        report.count("events", o.events as u64);
+                        report.count("released_calls", o.released as u64);
+                        report.count("nondeterministic_steps", o.nondet);
+                        report.count("contended_slots", o.contended as u64);
+                        for (k, v) in &o.stats {
+                            report.count(k, *v);
+                        }
+                        {
+                            let mut g = per_handler.lock().unwrap();
+                            let e = g.entry(handler.name().to_string()).or_insert((0, 0));
+                            e.0 += 1;
+                            if o.contended > 0 {
+                                e.1 += 1;
+                            }
+                            *per_strategy
+                                .lock()
+                                .unwrap()
+                                .entry(o.witness["strategy"].as_str().unwrap_or("").to_string())
+                                .or_insert(0) += 1;
+                        }
+                        for v in &o.verdicts {
+                            report.violation(&format!("{}:{}", v.sig, handler.name()), &v.what, o.witness.clone());
+                        }
+                        if o.contended > 0 && report.want_sample() && idx % 7 == 0 {
+                            report.sample(o.sample.clone());
+                        }
+                        report.case(if o.contended > 0 { Some(o.ihash) } else { None });
+                    }
+                }
+                if single.is_some() {
+                    break;
+                }
+            }
+        })
+    });
+    report.set(
+        "races_by_handler",
+        json!(per_handler
+            .lock()
+            .unwrap()
+            .iter()
+            .map(|(k, (n, c))| (k.clone(), json!({"races": n, "with_contended_slot": c})))
+            .collect::<BTreeMap<_, _>>()),
+    );
+    report.set("races_by_strategy", json!(per_strategy.lock().unwrap().clone()));
+    report.set(
+        "level_note",
+        json!("interleavings are sampled, not enumerated; the store log is complete for every executed race (every mutation of every manifest path is observed). UnsafeCommitHandler is exercised only in --selftest as a negative control."),
+    );
+    report.finish()
 }
